@@ -199,6 +199,8 @@ def generate(rng, index, cfg):
                 if via_git:
                     tracked.discard(p)
                     tracked.add(q)
+        elif r < 0.56 and files:
+            ops.append({"op": "chmod", "path": rng.choice(files)})     # a mode-only change
         elif r < 0.60 and files:
             ops.append({"op": "git", "argv": ["add", "--", rng.choice(files)]})
         elif r < 0.64:
@@ -414,6 +416,9 @@ class Runner:
                     f.write("\n")
             elif k == "rm":
                 os.remove(os.path.join(w.work, op["path"]))
+            elif k == "chmod":
+                pth = os.path.join(w.work, op["path"])
+                os.chmod(pth, os.stat(pth).st_mode ^ 0o111)
             elif k == "mv":
                 dst = os.path.join(w.work, op["dst"])
                 os.makedirs(os.path.dirname(dst), exist_ok=True)
